@@ -1,8 +1,10 @@
 //! rverif: executes scenario families against the real ractor code and records traces.
 //! All policy (what to validate, verdicts) lives in /verif/tools.
 mod explore;
+mod fam_exitwait;
 mod fam_lifecycle;
 mod fam_mailbox;
+mod fam_registry;
 mod tdrv;
 mod hctl;
 mod trace;
@@ -56,6 +58,8 @@ fn main() {
     let fams: &[fn(&str, &HashMap<String, String>) -> Option<serde_json::Value>] = &[
         fam_mailbox::dispatch,
         fam_lifecycle::dispatch,
+        fam_exitwait::dispatch,
+        fam_registry::dispatch,
     ];
     for f in fams {
         if let Some(summary) = f(&cmd, &a) {
